@@ -282,6 +282,33 @@ let handle (t : string list) : string =
     let f x = if x = "-" then [] else print (parse_ty x) in
     (match exec_gate (f e) (f g) with Accept -> "A" | RefuseSig -> "S" | RefuseBool -> "B")
   | ["boolgate"; t] -> Printf.sprintf "%s pinned=%s" (if accepts_bool (print (parse_ty t)) then "A" else "B") (if accepts_bool_pinned (print (parse_ty t)) then "A" else "B")
+  (* lockacc <history: t:acq_i|t:acq_p|t:inst|t:call:<value>|t:rel, comma separated> : replay the observed history on the lock model *)
+  | ["lockacc"; h] ->
+    let evs = List.map (fun e -> match String.split_on_char ':' e with
+      | [t; "acq_i"] -> EAcq (nat_of_int (int_of_string t), true)
+      | [t; "acq_p"] -> EAcq (nat_of_int (int_of_string t), false)
+      | [t; "inst"] -> EInst (nat_of_int (int_of_string t))
+      | [t; "rel"] -> ERel (nat_of_int (int_of_string t))
+      | [t; "call"; v] -> let v = int_of_string v in
+          ECall (nat_of_int (int_of_string t), (if v = 4242 then Orig else Fake (nat_of_int (v - 5000))))
+      | _ -> failwith ("bad lock event " ^ e)) (split ',' h) in
+    if accept init evs then "ACCEPT" else "REJECT"
+  (* asyncrun <yields: comma separated> <ops: F:i | A:i | T:i | D | N> : the dispatch spec of faked async functions *)
+  | ["asyncrun"; ys; ops] ->
+    let yl = Array.of_list (List.map int_of_string (split ',' ys)) in
+    let fam = fun i -> { a_yields = nat_of_int yl.(int_of_nat i); a_orig = O } in
+    let st = ref ainit in
+    let outs = List.map (fun op -> match String.split_on_char ':' op with
+      | ["F"; i] -> let (s', _) = astep fam !st (AFake (nat_of_int (int_of_string i), (fun n -> S n))) in st := s'; "F"
+      | [("A" | "T"); i] -> (match astep fam !st (AAwait (nat_of_int (int_of_string i))) with
+          | (s', Some r) -> st := s';
+              let v = int_of_nat r.o_value in
+              Printf.sprintf "%s:%s:%d:%d:%d" i (if v = 0 then "o" else "f" ^ string_of_int (v - 1)) (int_of_nat r.o_polls) (int_of_nat r.o_body_runs) (int_of_nat r.o_evals)
+          | (s', None) -> st := s'; "?")
+      | ["D"] -> let (s', _) = astep fam !st ADrop in st := s'; "D"
+      | ["N"] -> let (s', _) = astep fam !st ANew in st := s'; "N"
+      | _ -> "?") (split ',' ops) in
+    String.concat "," outs
   (* count <N> <panicking 0|1> <schedule: comma-separated <thread>r (the atomic RMW of a matching call) | <thread>l (a local step)> *)
   | ["count"; n; pk; sched] ->
     let sch = List.map (fun tk -> let l = String.length tk in
